@@ -94,7 +94,7 @@ pub fn short_path(p: &Path) -> String {
 // Fault plans
 // ---------------------------------------------------------------------------------------------
 
-#[derive(Debug, Clone, Copy, PartialEq, Eq, Hash, serde::Serialize, serde::Deserialize)]
+#[derive(Debug, Clone, Copy, PartialEq, Eq, Hash, PartialOrd, Ord, serde::Serialize, serde::Deserialize)]
 pub enum FaultOp {
     Create,
     Open,
@@ -107,7 +107,7 @@ pub enum FaultOp {
     Read,
 }
 
-#[derive(Debug, Clone, Copy, PartialEq, Eq, Hash, serde::Serialize, serde::Deserialize)]
+#[derive(Debug, Clone, Copy, PartialEq, Eq, Hash, PartialOrd, Ord, serde::Serialize, serde::Deserialize)]
 pub enum FileClass {
     Blob,
     Index,
@@ -233,7 +233,8 @@ pub fn append_only_violations(
                     IoOp::Write {
                         offset, len_before, ..
                     } if blob => {
-                        if offset != len_before {
+                        // appended bytes are never overwritten: no write starts below the end
+                        if offset < len_before {
                             out.push(format!(
                                 "write to {} at offset {} but file length is {}",
                                 short_path(&ev.path),
